@@ -37,7 +37,9 @@ class HttpShard(ShardCMC):
         self.base_url = base_url.rstrip("/") + "/"
         super().__init__(shard_key, shard_spec)
         self.populate_minishard_dict()
-        assert self.can_read_cmc
+        if not self.can_read_cmc:
+            raise ShardedIOError(
+                f"Shard {self.shard_key_str} not found at {self.base_url}")
 
     def file_exists(self, filepath):
         resp = self._session.head(f"{self.base_url}{filepath}")
